@@ -73,3 +73,42 @@ def trace_validate(res, name, n_coroutines, n_traces, n_calls):
         res.cov['trace_validation'][name]['corrupted_trace_rejected_at_event'] = r2[0][1] if r2 else None
         if not (len(r2) == 1 and r2[0][1] == k):
             raise common.MachineryError('trace validation accepted a corrupted coroutine trace: %r (corrupted event %d)' % (r2, k))
+
+
+def apalache_timer_core(res):
+    """Optional extra (unbounded integers): Apalache discharges the inductive invariant of spec/TimerCore.tla, the
+    timing core of the coroutine scheduler, and the wake-exactly-on-time statement from any state satisfying it.
+    No verdict depends on it: a missing tool or a timeout is recorded, a refuted obligation is a specification bug."""
+    import os
+    import shutil
+    import subprocess
+    import time
+    from .. import replay as _rp
+    if _rp.REPLAY is not None:
+        return
+    exe = shutil.which('apalache-mc')
+    rec = res.cov.setdefault('apalache_timer_core', {})
+    if not exe:
+        rec['status'] = 'apalache-mc not found'
+        return
+    obligations = [('Init => IndInv', ['--init=Init', '--inv=IndInv', '--length=0']),
+                   ('IndInv /\\ Next => IndInv\'', ['--init=IndInit', '--inv=IndInv', '--length=1']),
+                   ('IndInv /\\ Next => WakeOnTime\'', ['--init=IndInit', '--inv=WakeOnTime', '--length=1'])]
+    done = 0
+    for name, args in obligations:
+        out = os.path.join(res.scratch, 'apa-%d' % done)
+        t = time.time()
+        try:
+            p = subprocess.run([exe, 'check'] + args + ['--out-dir=' + out, os.path.join(res.specdir, 'TimerCore.tla')],
+                               stdout=subprocess.PIPE, stderr=subprocess.STDOUT, text=True, timeout=300, cwd=res.specdir)
+        except subprocess.TimeoutExpired:
+            rec[name] = 'timeout'
+            continue
+        ok = 'EXITCODE: OK' in p.stdout
+        rec[name] = {'discharged': ok, 'wall_s': round(time.time() - t, 1)}
+        if 'Checker has found an error' in p.stdout:
+            raise common.MachineryError('Apalache refuted "%s" on TimerCore.tla: the inductive invariant is wrong\n%s' % (name, p.stdout[-1500:]))
+        done += ok
+    rec['obligations'] = len(obligations)
+    rec['discharged'] = done
+    rec['note'] = 'unbounded waits and dt, 3 coroutines; TimerCore.tla abstracts the wake-up arithmetic of Coroutines.tla (same equations: TimerInvariant)'
